@@ -136,10 +136,6 @@ def install_executor2(w):
                params={"type_def": "dyn", "node": "dyn", "variable_values": "dyn",
                        "fragment_variable_values": "dyn", "hide_suggestions": "bool"},
                returns="dyn", ensures=[], raises=["GraphQLError"], assumed=True)
-    w.contract(f"{EX}.Executor.complete_awaitable_value",
-               params={"return_type": "ty", "field_details_list": FDL, "info": "dyn",
-                       "path": "ref:Path", "result": "dyn", "position_context": "dyn"},
-               returns="dyn", ensures=[], raises=[], assumed=True)
     w.shape("GraphQLField", resolve="dyn")
     w.contract("graphql.pyutils.is_awaitable.is_awaitable", params={"value": "dyn"},
                returns="bool", ensures=[], raises=[], assumed=True)
@@ -346,3 +342,56 @@ _inst_prev5 = install
 def install(w):   # noqa: F811
     _inst_prev5(w)
     install_collect_impl(w)
+
+
+def install_async(w):
+    """The two coroutine completion paths (C03, C01): whatever the awaited resolver result or the
+    awaited completion raises is routed through handle_field_error - nothing but the GraphQLError it
+    re-raises for a non-null position can leave.  Every `await` is a havoc point (pyvc ev_Await)."""
+    COMMON = {"field_details_list": ("list", "dyn"), "info": "dyn", "position_context": "dyn"}
+    w.contract(f"{EX}.Executor.complete_awaitable_value",
+               params=dict(COMMON, return_type="ty", path="ref:Path", result="dyn"),
+               returns="dyn", requires=["OutputTy(return_type)"], ensures=[],
+               raises=["GraphQLError"], modifies=[], coroutine=True,
+               waive=["call of a non-callable"], props={"C03", "C01"})
+    w.contract(f"{EX}.Executor.complete_awaitable_list_item_value",
+               params=dict(COMMON, item="dyn", item_type="ty", item_path="ref:Path"),
+               returns="dyn", requires=["OutputTy(item_type)"], ensures=[],
+               raises=["GraphQLError"], modifies=[], coroutine=True,
+               waive=["call of a non-callable"], props={"C03", "C01"})
+
+
+def install_type_resolver(w):
+    """default_type_resolver: the awaitable is_type_of results and the types they belong to are kept
+    in two parallel lists; the coroutine that awaits them must pair result j with type j."""
+    w.contract(f"{EX}.default_type_resolver",
+               params={"value": "dyn", "info": "dyn", "abstract_type": "dyn"},
+               returns="dyn", ensures=[], raises=["Exception"], modifies=[],
+               locals={"awaitable_is_type_of_results": ("list", "dyn"),
+                       "awaitable_types": ("list", "dyn")},
+               loops={1: {"invariant": ["len(awaitable_is_type_of_results) == len(awaitable_types)"]}},
+               exit_post=["len(awaitable_is_type_of_results) == len(awaitable_types)"],
+               # schema.get_possible_types() returns a list and __mro__ is a tuple: library values
+               # that are dynamic here
+               waive=["call of a non-callable", "TypeError from `possible_types`",
+                      "TypeError from `value.__class__.__mro__`"], props={"C03"})
+    w.contract(f"{EX}.default_type_resolver.<locals>.get_type",
+               closure={"info": "dyn", "awaitable_is_type_of_results": ("list", "dyn"),
+                        "awaitable_types": ("list", "dyn")},
+               returns="dyn",
+               requires=["len(awaitable_is_type_of_results) == len(awaitable_types)"],
+               ensures=[], raises=["Exception"], modifies=[], coroutine=True,
+               loops={1: {"return_post": [
+                   # the name returned is that of the type whose own is_type_of result is true
+                   "exists(j, 0, len(awaitable_types), same(awaitable_types[j], type_)"
+                   " and truthy(vitem(is_type_of_results, j)))"]}},
+               waive=["call of a non-callable"], props={"C03"})
+
+
+_inst_prev6 = install
+
+
+def install(w):   # noqa: F811
+    _inst_prev6(w)
+    install_async(w)
+    install_type_resolver(w)
